@@ -553,3 +553,150 @@ Example C16_example_tp1_applies : forall c, In c [0; 1; 2; 3] -> exists D' gD gS
     = TensorProdBridge.gvalue Z 0%Z 1%Z Z.add Z.mul (Value.tp1_wiresS 1000 100 Value.vx_s c) (Value.tp1_dimS 1000 100 Value.vx_s c) Value.vx_tblS gS rho'.
 Proof. exact ValueTP1.tp1_example_thm. Qed.
 Print Assumptions C16_example_tp1_applies.
+
+(* ---- tensor products on ANY number of distinct sites (TTNDO/ValueTPNA.v: state side, TTNDO/ValueTPN.v: network + join) ---- *)
+From PTN Require TTNDO.ValueTPNA TTNDO.ValueTPN.
+
+(* TTNDO.tensor_product_expectation_value (for every factor absorb_into_open_legs at the ket image of its site, in dict
+   order, then trace(): ValueTP1.ttndo_tp_expectation) against C04's pure-state path TensorProd.tp_expectation (conjugate
+   copy of the ORIGINAL state, apply_operator, contract_two_ttns): for every well-formed state store s with one open leg
+   per node, every tree, every root bond dimension k >= 1 and every list ops of (site, operator shape) with pairwise
+   DISTINCT sites and shapes (dd, dd), dd the physical dimension of the site -- any number of factors, the empty list
+   included -- over every commutative semiring: if d is structurally the network from_ttns builds (ttndo_of), the atom
+   tables satisfy the build contracts and factor i (atom next_atom d + i in the network, next_atom s + i on the state
+   side) holds the same matrix in both tables, then every absorption is accepted, both paths succeed with closed
+   diagrams, and the two diagrams have the same value.  World of the state side: C04's pair world extended by the rows
+   apply_operator appends (ValueTPNA.tpN_wiresS / tpN_dimS: factor i on (next_wire s + i, open wire of its site)). *)
+Theorem C16_tp_value : forall (R : Type) (zero one : R) (add mul : R -> R -> R),
+  Sem.comm_semiring zero one add mul ->
+  forall (woff aoff : nat) (im : Contr.idmaps) (d s : Store.store) (r0 : nat) (ts : Closed.rt) (k : nat)
+         (tblD tblS : nat -> list nat -> R) (ops : list (nat * list nat)),
+  InvSem.wfs s -> TensorProdBridge.one_open s -> 0 < woff ->
+  Store.next_wire s + List.length ops <= woff -> Store.next_atom s + List.length ops <= aoff ->
+  Closed.ket_tree s = Some ts -> 1 <= k ->
+  Value.ttndo_of im d s r0 ts k ->
+  Value.build_contracts R zero one add mul woff aoff im d s r0 ts k tblD tblS ->
+  NoDup (map fst ops) ->
+  (forall o, In o ops -> In (fst o) (Closed.rnodes ts) /\
+                         snd o = [Store.wdim s (Closed.open_wire s (fst o)); Store.wdim s (Closed.open_wire s (fst o))]) ->
+  (forall i o, nth_error ops i = Some o -> forall a b, a < hd 0 (snd o) -> b < hd 0 (snd o) ->
+     tblD (Store.next_atom d + i) [a; b] = tblS (Store.next_atom s + i) [a; b]) ->
+  exists D' gD gS,
+    ValueTP1.ttndo_tp_apply im d ops = Some D' /\
+    ValueTP1.ttndo_tp_expectation im d ops = Some gD /\ TensorProd.tp_expectation woff aoff s ops = Some gS /\
+    Blocks.gaxes gD = [] /\ Blocks.gaxes gS = [] /\
+    forall rho rho',
+      TensorProdBridge.gvalue R zero one add mul (Sem.atom_wires D') (Store.wdim D') tblD gD rho
+      = TensorProdBridge.gvalue R zero one add mul (ValueTPNA.tpN_wiresS woff aoff s ops) (ValueTPNA.tpN_dimS woff aoff s ops) tblS gS rho'.
+Proof. exact ValueTPN.tp_value. Qed.
+Print Assumptions C16_tp_value.
+
+(* the same with every structural hypothesis in executable form *)
+Theorem C16_tp_value_checked : forall (R : Type) (zero one : R) (add mul : R -> R -> R),
+  Sem.comm_semiring zero one add mul ->
+  forall (woff aoff : nat) (im : Contr.idmaps) (d s : Store.store) (r0 : nat) (k : nat) (tblD tblS : nat -> list nat -> R)
+         (ops : list (nat * list nat)),
+  Value.value_hyp woff aoff im d s r0 k = true ->
+  Store.next_wire s + List.length ops <= woff -> Store.next_atom s + List.length ops <= aoff ->
+  (forall ts, Closed.ket_tree s = Some ts -> Value.build_contracts R zero one add mul woff aoff im d s r0 ts k tblD tblS) ->
+  NoDup (map fst ops) ->
+  (forall o, In o ops -> In (fst o) (Store.akeys (Store.nodes s)) /\
+                         snd o = [Store.wdim s (Closed.open_wire s (fst o)); Store.wdim s (Closed.open_wire s (fst o))]) ->
+  (forall i o, nth_error ops i = Some o -> forall a b, a < hd 0 (snd o) -> b < hd 0 (snd o) ->
+     tblD (Store.next_atom d + i) [a; b] = tblS (Store.next_atom s + i) [a; b]) ->
+  exists D' gD gS,
+    ValueTP1.ttndo_tp_apply im d ops = Some D' /\
+    ValueTP1.ttndo_tp_expectation im d ops = Some gD /\ TensorProd.tp_expectation woff aoff s ops = Some gS /\
+    Blocks.gaxes gD = [] /\ Blocks.gaxes gS = [] /\
+    forall rho rho',
+      TensorProdBridge.gvalue R zero one add mul (Sem.atom_wires D') (Store.wdim D') tblD gD rho
+      = TensorProdBridge.gvalue R zero one add mul (ValueTPNA.tpN_wiresS woff aoff s ops) (ValueTPNA.tpN_dimS woff aoff s ops) tblS gS rho'.
+Proof. exact ValueTPN.tp_value_b. Qed.
+Print Assumptions C16_tp_value_checked.
+
+(* the state side read in C04's own world: the pair world of (the state after apply_operator, the conjugate copy of the
+   original state), the world contract_two_ttns of that pair lives in *)
+Theorem C16_tp_value_pair_world : forall (R : Type) (zero one : R) (add mul : R -> R -> R),
+  Sem.comm_semiring zero one add mul ->
+  forall (woff aoff : nat) (im : Contr.idmaps) (d s : Store.store) (r0 : nat) (ts : Closed.rt) (k : nat)
+         (tblD tblS : nat -> list nat -> R) (ops : list (nat * list nat)),
+  InvSem.wfs s -> TensorProdBridge.one_open s -> 0 < woff ->
+  Store.next_wire s + List.length ops <= woff -> Store.next_atom s + List.length ops <= aoff ->
+  Closed.ket_tree s = Some ts -> 1 <= k ->
+  Value.ttndo_of im d s r0 ts k ->
+  Value.build_contracts R zero one add mul woff aoff im d s r0 ts k tblD tblS ->
+  NoDup (map fst ops) ->
+  (forall o, In o ops -> In (fst o) (Closed.rnodes ts) /\
+                         snd o = [Store.wdim s (Closed.open_wire s (fst o)); Store.wdim s (Closed.open_wire s (fst o))]) ->
+  (forall i o, nth_error ops i = Some o -> forall a b, a < hd 0 (snd o) -> b < hd 0 (snd o) ->
+     tblD (Store.next_atom d + i) [a; b] = tblS (Store.next_atom s + i) [a; b]) ->
+  exists D' ketS gD gS,
+    ValueTP1.ttndo_tp_apply im d ops = Some D' /\ TensorProd.tp_apply s ops = Some ketS /\
+    ValueTP1.ttndo_tp_expectation im d ops = Some gD /\ TensorProd.tp_expectation woff aoff s ops = Some gS /\
+    Blocks.gaxes gD = [] /\ Blocks.gaxes gS = [] /\
+    forall rho rho',
+      TensorProdBridge.gvalue R zero one add mul (Sem.atom_wires D') (Store.wdim D') tblD gD rho
+      = TensorProdBridge.gvalue R zero one add mul (TensorProdBridge.pair_wires ketS (TensorProd.conj_store woff aoff s))
+          (TensorProdBridge.pair_dim ketS (TensorProd.conj_store woff aoff s)) tblS gS rho'.
+Proof. exact ValueTPN.tp_value_pair_world. Qed.
+Print Assumptions C16_tp_value_pair_world.
+
+(* the state side on its own (C04's fused form for a general glue list): the value of the <psi| (x)_i O_i |psi> diagram is the
+   sum over both copies of every edge wire, every ket-side open wire and the factors' output wires of
+   (product over the nodes of node tensor . conjugate copy's node tensor read through the gluing) . (product of the factor entries),
+   in any world that extends the state and its conjugate copy by the factor atoms *)
+Theorem C16_tp_state_value : forall (R : Type) (zero one : R) (add mul : R -> R -> R),
+  Sem.comm_semiring zero one add mul ->
+  forall (woff aoff : nat) (s : Store.store) (tbl : nat -> list nat -> R),
+  InvSem.wfs s ->
+  forall ops : list (nat * list nat),
+  Store.next_wire s + List.length ops <= woff -> Store.next_atom s + List.length ops <= aoff -> 0 < woff ->
+  forall ts : Closed.rt, Closed.wf_two s (TensorProd.conj_store woff aoff s) ts ->
+  Permutation.Permutation (Closed.rnodes ts) (Store.akeys (Store.nodes s)) ->
+  NoDup (map fst ops) -> (forall o, In o ops -> In (fst o) (Closed.rnodes ts)) ->
+  (forall o, In o ops -> snd o = [Store.wdim s (Closed.open_wire s (fst o)); Store.wdim s (Closed.open_wire s (fst o))]) ->
+  forall (Wr : nat -> list nat) (Dm : nat -> nat),
+  (forall a, In a (Inv.total_atoms s) -> Wr a = Sem.atom_wires s a) ->
+  (forall a, a < Store.next_atom s -> Wr (aoff + a) = map (Nat.add woff) (Sem.atom_wires s a)) ->
+  (forall i o, nth_error ops i = Some o -> Wr (Store.next_atom s + i) = [Store.next_wire s + i; Closed.open_wire s (fst o)]) ->
+  exists ketS g, TensorProd.tp_apply s ops = Some ketS /\ TensorProd.tp_expectation woff aoff s ops = Some g /\ Blocks.gaxes g = [] /\
+    Store.atab ketS = Store.atab s ++ TensorProd.tp_rows s ops /\
+    forall rho,
+      TensorProdBridge.gvalue R zero one add mul Wr Dm tbl g rho
+      = Sem.sum_bnd R zero add Dm (Value.restS woff s ts ++ ValueTPNA.new_wires s ops)
+          (fun r => mul (ValueTPNA.prodSN R zero one add mul woff aoff s tbl ops ts Wr Dm r)
+                        (Sem.atoms_val R one mul Wr tbl (ValueTPNA.new_atoms s ops) r)) rho.
+Proof. exact ValueTPNA.S_value_tpN. Qed.
+Print Assumptions C16_tp_state_value.
+
+(* non-vacuity: the four-node tree of C16_example_value with offsets 20 / 10; TWO non-symmetric integer factors
+   (atoms 4, 5 on the state side, 9, 10 in the network); on the sites (1, 0) and (1, 3) -- an inner node with the root,
+   an inner node with its leaf child, physical dimensions (2, 2) and (2, 3) -- both diagrams evaluate (vm_compute) to
+   the same number; all structural hypotheses and the build contracts hold for these tables *)
+Example C16_example_tp_numbers :
+  (ValueTPN.vx_tblS3 4 [0; 1], ValueTPN.vx_tblS3 4 [1; 0], ValueTPN.vx_tblS3 5 [0; 1], ValueTPN.vx_tblS3 5 [1; 0]) = (-3, -1, 3, -2)%Z /\
+  ValueTPN.vx_tpN_S [1; 0] = Some 10484%Z /\ ValueTPN.vx_tpN_D 1 [1; 0] = Some 10484%Z /\
+  ValueTPN.vx_tpN_S [1; 3] = Some (-902)%Z /\ ValueTPN.vx_tpN_D 1 [1; 3] = Some (-902)%Z.
+Proof. exact ValueTPN.tpN_example_numbers. Qed.
+Print Assumptions C16_example_tp_numbers.
+
+Example C16_example_tp_hyp :
+  (Store.next_wire Value.vx_s, Store.next_atom Value.vx_s, Store.next_atom (Value.vx_d 1)) = (10, 4, 9) /\
+  Value.value_case Value.vx_bond Value.vx_phys 1 Value.vx_t 20 10 = true /\
+  Value.value_case Value.vx_bond Value.vx_phys 3 Value.vx_t 20 10 = true /\
+  Value.build_contractsb 20 10 Contr.code_maps (Value.vx_d 1) Value.vx_s 0 Value.vx_ts 1 Value.vx_tblD ValueTPN.vx_tblS3 = true /\
+  Value.build_contractsb 20 10 Contr.code_maps (Value.vx_d 3) Value.vx_s 0 Value.vx_ts 3 Value.vx_tblD ValueTPN.vx_tblS3 = true.
+Proof. exact ValueTPN.tpN_example_hyp. Qed.
+Print Assumptions C16_example_tp_hyp.
+
+(* the theorem applies to the example (k = 3) with the two factors on the sites 1 and 3 *)
+Example C16_example_tp_applies : exists D' gD gS,
+  ValueTP1.ttndo_tp_apply Contr.code_maps (Value.vx_d 3) (ValueTPN.vx_ops [1; 3]) = Some D' /\
+  ValueTP1.ttndo_tp_expectation Contr.code_maps (Value.vx_d 3) (ValueTPN.vx_ops [1; 3]) = Some gD /\
+  TensorProd.tp_expectation 20 10 Value.vx_s (ValueTPN.vx_ops [1; 3]) = Some gS /\
+  forall rho rho',
+    TensorProdBridge.gvalue Z 0%Z 1%Z Z.add Z.mul (Sem.atom_wires D') (Store.wdim D') Value.vx_tblD gD rho
+    = TensorProdBridge.gvalue Z 0%Z 1%Z Z.add Z.mul (ValueTPNA.tpN_wiresS 20 10 Value.vx_s (ValueTPN.vx_ops [1; 3]))
+        (ValueTPNA.tpN_dimS 20 10 Value.vx_s (ValueTPN.vx_ops [1; 3])) ValueTPN.vx_tblS3 gS rho'.
+Proof. exact ValueTPN.tpN_example_thm. Qed.
+Print Assumptions C16_example_tp_applies.
